@@ -353,6 +353,8 @@ FAULTS = {
                  "g(y) > nosuch(a) > x", "obj.nosuch > w", "nosuch(!x)"],
     "focus2": ["f(!!x)", "f(a, !!x)", "g > f(!!x)", "f(!!#exit)", "g(!!y, f(a))", "K.meth(!!w)", "f((x), !!y)",
                "f((a), (x), !!y)"],
+    # top-level sequences of call paths, with parenthesised sub-sequences
+    "sequence": ["(f > a, f > b), g", "((a, b)), c", "x, (a, b), c", "(f > a, g > y), (h > n, f > b)"],
     "nofocus-override": ["f(x)", "f(a, x)", "g(y, f(x))", "f()", "h(i, t)", "K.meth(w)", "f((x))", "f(a, (x))",
                          "f((x as z))", "g((y), f((x)))"],
 }
